@@ -569,6 +569,38 @@ def oC04 (st : OState) (v : OpView) (c : Ctx) : List String :=
     else []
   | _, _ => []
 
+/-! ## C06 -/
+
+/-- after a successful `format_volume` the image, decoded independently of the library and whatever the medium held
+    before, is a valid EMPTY volume: geometry accepted by the specification's rules, no consistency finding, no live
+    entry in the root directory other than the volume label asked for, every data cluster free (but the FAT32 root's),
+    all FAT copies equal, FS-information counters exact -/
+def oC06 (v : OpView) (c : Ctx) : List String :=
+  if c.op != "format" || !c.ok then [] else
+  match parseGeom v.after with
+  | .error e => [s!"C06 format-invalid-volume the boot sector written by format is rejected by the specification decoder: {e}"]
+  | .ok g =>
+    let fmsgs := (fsck v.after [] c.upper).map fun m => s!"C06 format-not-clean {m}"
+    let wantLabel := (Util.kv c.args "label").getD "none" != "none"
+    let rmsgs := match Spec.listDir g v.after (rootLoc g) with
+      | .error e => [s!"C06 format-root-unreadable {e}"]
+      | .ok pd =>
+        let live := pd.entries.filter fun e => e.attrs / 8 % 2 == 0 || e.longName.isSome
+        let labels := pd.entries.filter fun e => e.attrs / 8 % 2 == 1 && e.longName.isNone
+        (if live.isEmpty && pd.dots.isEmpty then [] else
+          [s!"C06 format-root-not-empty {live.length + pd.dots.length} entr(ies) in the root of the fresh volume, first: {((live ++ pd.dots).map (·.name)).headD "?"}"]) ++
+        (if labels.length ≤ (if wantLabel then 1 else 0) then [] else
+          [s!"C06 format-stray-label {labels.length} volume-label entr(ies) in the root of the fresh volume"])
+    let used := g.totalClusters - fatFreeCount g v.after
+    let wantUsed := if g.fatBits == 32 then 1 else 0
+    let umsgs := if used == wantUsed then [] else
+      [s!"C06 format-clusters-in-use {used} cluster(s) marked used on the fresh volume (expected {wantUsed})"]
+    let imsgs := match fsInfo g v.after with
+      | some (some free, _) => if free == g.totalClusters - wantUsed then [] else
+          [s!"C06 format-fsinfo free count {free}, the FAT has {g.totalClusters - wantUsed}"]
+      | _ => []
+    fmsgs ++ rmsgs ++ umsgs ++ imsgs ++ (checkFatCopies g v.after).map (fun m => s!"C06 format-{m}")
+
 /-! ## C05 -/
 
 /-- longest run of free slots (deleted or at/after the end marker) of the fixed root -/
@@ -1285,6 +1317,7 @@ def stepO (st : OState) (v : OpView) : OState × List String :=
       | _ => none
     (st4, msgs ++ cmsgs ++ fmsgs)
   | "C04" => ({ st' with tree := none }, oC04 st' v c)
+  | "C06" => ({ st' with tree := none }, oC06 v c)
   | "C05" => ({ st' with tree := none }, oC05 st v c)
   | "C09" => ({ st' with tree := none }, oC09 v c)
   | "C11" => ({ st' with tree := none }, oC11 st v c)
